@@ -548,6 +548,17 @@ def r06_5(chk, repo):
         final_ok = okret and (rk == f"$verts'{nver - 1}" or (rk.startswith("(ite ") and f"$verts'{nver - 1}" in rk))
         chk.ob("R06.5", SF, q2, "the returned mesh carries the final (permuted, shifted) vertices", bool(final_ok), fingerprint=f"{q2}:return",
                found=rk)
+        # the normals array of the returned mesh is in the frame of the vertices: permuted the same way, not shifted
+        nr = ret[2][2] if ret and len(ret[2]) == 4 else None
+        nk = nr.key() if nr is not None else ""
+        okn = False
+        if nr is not None:
+            na = nr.as_atom()
+            if na and na[0] == "sub" and na[1].key() == "numpy.c_":
+                cols = [column_of(x) for x in na[2]]
+                okn = all(cols) and [c[1] for c in cols] == [1, 0, 2] and len({c[0].key() for c in cols}) == 1 and "marching_cubes(" in cols[0][0].key()
+        chk.ob("R06.5", SF, q2, "the normals returned with the mesh are permuted (1, 0, 2) like the vertices (same Cartesian frame), and not shifted",
+               okn, fingerprint=f"{q2}:normals", expected="numpy.c_[n[:, 1], n[:, 0], n[:, 2]] of the mesher's normals", found=nk[:140])
         mg = [e for e in ev2.events if e.kind == "call" and call_name(e.value.as_atom() or ()) == "numpy.meshgrid"]
         okm = bool(mg) and dict(mg[0].extra["kwargs"]).get("indexing") is None and [a.key()[-7:] for a in mg[0].extra["args"]] and len(mg[0].extra["args"]) == 3
         chk.ob("R06.5", SF, q2, "the field is sampled on a default ('xy') meshgrid of the x, y, z grids", okm, fingerprint=f"{q2}:meshgrid")
